@@ -179,3 +179,24 @@ fn array_extract__owned_n2_at1() {
 fn array_extract__owned_out_of_range_n3() {
     extract_owned_out_of_range::<3>()
 }
+
+/// Boundary literals (regression obligations): index == len and the largest index on
+/// an owned one-element array yield no value.
+#[kani::proof]
+#[kani::stub(std::mem::drop, crate::lhs_types::verif_kani::common::mem_drop__releases_nothing_observable)]
+#[kani::solver(minisat)]
+#[kani::unwind(2)]
+fn array_extract__owned_n1_at_len() {
+    extract_owned_at::<1, 1>()
+}
+
+#[kani::proof]
+#[kani::stub(std::mem::drop, crate::lhs_types::verif_kani::common::mem_drop__releases_nothing_observable)]
+#[kani::solver(minisat)]
+#[kani::unwind(2)]
+fn array_extract__owned_n1_at_max() {
+    let xs: [i64; 1] = kani::any();
+    let arr = array_owned(Type::Int, ints(&xs));
+    check_val(arr.extract(usize::MAX), &xs, usize::MAX);
+    kani::cover!(true);
+}
